@@ -682,6 +682,7 @@ func c03(c *Ctx) {
 	ruleInsertCapacity(c, tx, "R1")
 	ruleInsertFront(c, tx, "R1")
 	ruleInsertLookupKey(c, tx, "R1")
+	ruleParseDupKey(c, tx, "R1")
 
 	defer c03Carriers(c, px)
 	c.Rule("R3", "E5 immutability (alias tracking)", "no method of TraceState writes through the receiver's list: element stores, append and copy destinations are rooted at fresh allocations", 4)
@@ -2105,4 +2106,56 @@ func ruleInsertLookupKey(c *Ctx, tx *PkgIndex, rule string) {
 	}
 	c.Check(bad == "", rule, "trace|TraceState.Insert|the member to replace is looked up by the key the new member is stored under", at(tx.M, pos), itoa(n)+" comparison(s) with the stored spelling of the key",
 		"an existing member is missed and the key ends up in the list twice (the tracestate no longer re-parses): "+bad)
+}
+
+// ruleParseDupKey: "at most 32 unique members" on the parsing side. ParseTraceState rejects a repeated key by looking each
+// member's key up among those seen so far; the key it looks up and records is the key of the member it stores (m.Key, after
+// whatever trimming the member parser does) — a set keyed by the raw text cut from the header treats "foo" and " foo" as two
+// keys and lets the key in twice.
+func ruleParseDupKey(c *Ctx, tx *PkgIndex, rule string) {
+	info := tx.Pkg.TypesInfo
+	fn := c.Fn(tx, rule, "ParseTraceState")
+	if fn == nil {
+		return
+	}
+	// members built in this function: variables of type member
+	isMemberKey := func(e ast.Expr) bool {
+		fv, b := fieldOf(info, e)
+		if fv == nil || fv.Name() != "Key" || b == nil {
+			return false
+		}
+		nn := namedOf(info.TypeOf(b))
+		return nn != nil && nn.Obj().Name() == "member"
+	}
+	n, bad := 0, ""
+	var badPos token.Pos
+	inspectNoLit(fn.Body(), func(nd ast.Node) bool {
+		switch x := nd.(type) {
+		case *ast.IndexExpr:
+			tv, ok := info.Types[x.X]
+			if !ok {
+				return true
+			}
+			if mp, isMap := tv.Type.Underlying().(*types.Map); isMap {
+				if b, isB := mp.Key().Underlying().(*types.Basic); isB && b.Info()&types.IsString != 0 {
+					if v, isV := objOf(info, x.X).(*types.Var); isV && !v.IsField() {
+						n++
+						if !isMemberKey(x.Index) {
+							bad, badPos = "the set of seen keys is indexed with "+exprStr(x.Index), x.Pos()
+						}
+					}
+				}
+			}
+		}
+		return true
+	})
+	if n == 0 {
+		return // the look-up is written another way (a scan over the collected members compares their stored keys by construction)
+	}
+	pos := fn.Pos()
+	if bad != "" {
+		pos = badPos
+	}
+	c.Check(bad == "", rule, "trace|ParseTraceState|duplicates are detected on the key the member is stored under", at(tx.M, pos), itoa(n)+" access(es) of the seen-set, all by a member's Key",
+		"a key that differs from an earlier one only in the optional whitespace the member parser strips is not recognised as a duplicate: the tracestate holds the key twice — "+bad)
 }
